@@ -58,9 +58,12 @@ theorem eval_eq_list_str (e : Engine) (hv : e.Valid) (sp dp : KPeer) (a b : Int)
   exact eval_eq_list e hv sp dp a b hs hd hdok hne hq hn hl he
 
 /-- **C03, `eval` answers whenever `list` does.** If `list` returns a set for the pair, `eval`
-returns an answer for every in-range point: a named port towards an IP block that `list` never
-looked at (All Connections exit of the policy, or admin policies deciding everything) is not
-reached by the walk of `eval` either. -/
+returns an answer for every in-range point: `list` examines every rule of every selecting policy
+(no exit on All Connections any more), so no selecting rule fails; and a named port towards an IP
+block that `list` never looked at because the admin policies decide everything is not reached by
+the walk of `eval` either. (`list` now fails in more cases than before — a failing rule behind a
+rule that allows everything —, `eval` still stops at the first rule that allows the point: the
+converse fails in more cases, see the examples.) -/
 theorem eval_answers_when_list_does (e : Engine) (hv : e.Valid) (sp dp : KPeer) (a b : Int)
     (hs : sp.Concrete a) (hd : dp.Concrete b) (hdok : dp.DstOK) {proto port : String} {pr : Proto}
     {n : Int} (hq : Parses proto port pr n) (hn : inRange n) {c : ConnSet}
@@ -299,7 +302,7 @@ example : verdict eng1 A B "TCP" "8080" = .ok true :=
   eval_is_list eng1 (by decide) A B 0 0 (by decide) (by decide) (by decide) (by decide)
     parses_tcp_8080 (by decide) list_AB
 
-/-! egress towards an address: the All Connections exit, and the named port -/
+/-! egress towards an address: All Connections and the named port -/
 
 /-- egress from `a`: `rules` -/
 def fromA (rules : List NPRule) : NetPol :=
@@ -314,9 +317,10 @@ def engE (rules : List NPRule) : Engine :=
 example : (engE [toBlock, namedDns]).Valid ∧ (engE [namedDns, toBlock]).Valid ∧
     (engE [port80, namedDns]).Valid := by decide
 
-/-- everything to 10.0.0.0/8 first: `list` leaves the loop before the named port, `eval` stops at
-the first rule — both answer (`eval_answers_when_list_does`) -/
-example : (engE [toBlock, namedDns]).peerConns A X = .ok (ConnSet.mk' true) ∧
+/-- everything to 10.0.0.0/8 first: `eval` stops at the first rule and answers; `list` examines
+every rule (no early exit on All Connections any more) and fails on the named port, as it does in
+the other order of the two rules — the converse of `eval_answers_when_list_does` fails here too -/
+example : (engE [toBlock, namedDns]).peerConns A X = .error .namedPortOnIP ∧
     verdictP (engE [toBlock, namedDns]) A X (some .TCP) 80 = .ok true := by decide
 
 /-- the named port first: both fail, with the same error (`list_fails_when_eval_does`) -/
